@@ -309,7 +309,7 @@ func (c *Checker) Check() []Violation {
 				c.Stats.Inserts++
 				// the version immediately below the insert's commit point must not be a value
 				if v, s, cts := kt.VisibleAt(o.CommitTS - 1); v != nil {
-					c.fail("insert:committed-over-existing-value", fmt.Sprintf("key %q: insert of txn %d committed at %d although the key had value %q (txn %d, commit %d)", k, rec.ID, o.CommitTS, v, s, cts),
+					c.fail("insert:committed-over-existing-value", fmt.Sprintf("key %q: insert of txn %d (start %d) committed at %d although the key had value %q (txn %d, commit %d)", k, rec.ID, rec.StartTS, o.CommitTS, v, s, cts),
 						map[string]any{"key": k, "txn": rec.ID, "spec": rec.Spec.String(), "key_truth": kt})
 				}
 			}
@@ -325,7 +325,7 @@ func (c *Checker) Check() []Violation {
 				if v, s, cts := kt.VisibleAt(o.CommitTS - 1); v != nil && s != rec.StartTS {
 					// optimistic: checked at prewrite against the snapshot; a value committed before start_ts must fail the commit
 					if cts <= rec.StartTS || e.PessLock {
-						c.fail("insert:insert-delete-committed-over-existing-value", fmt.Sprintf("key %q: txn %d inserted and deleted the key and committed at %d although the key had value %q (commit %d)", k, rec.ID, o.CommitTS, v, cts),
+						c.fail("insert:insert-delete-committed-over-existing-value", fmt.Sprintf("key %q: txn %d (start %d) inserted and deleted the key and committed at %d although the key had value %q (commit %d)", k, rec.ID, rec.StartTS, o.CommitTS, v, cts),
 							map[string]any{"key": k, "txn": rec.ID, "spec": rec.Spec.String(), "key_truth": kt})
 					}
 				}
